@@ -65,7 +65,7 @@ func scenC11(k *K) {
 		case "fail-fetch":
 			if want != nil {
 				k.W.mu.Lock()
-				k.W.FailWant[want.c.String()] = true
+				k.W.FailWant[want.c.String()] = 1
 				k.W.mu.Unlock()
 			} else {
 				cancelVictim()
